@@ -6,7 +6,7 @@ context-manager classes, the four gate functions) and every gate site reached th
 History: a seeded, nested program of enable/disable calls, `with enable():` /
 `with disable():` blocks (depth <= 4) whose bodies may raise at a drawn position (a
 harness exception or the GuppyError of a rejected check, caught at a drawn outer level),
-interleaved with checks of probe programs (35 gated constructs x 16 contexts incl. unreachable code + control,
+interleaved with checks of probe programs (37 gated constructs x 16 contexts incl. unreachable code + control,
 each optionally carrying a second ordinary mistake before / inside / after the construct so
 that the check fails part-way through CFG construction, type or linearity checking).
 Reference model: an explicit save/restore stack.  Invariants after every op.
@@ -34,8 +34,8 @@ ASSUMPTIONS = [
 MANIFEST = {
     "level": LEVEL,
     "technique": "deterministic simulation: seeded histories of nested enable/disable context managers with injected exceptional exits, checked against a save/restore stack model",
-    "text": "Two parts. Exhaustive table: every gated construct (35, incl. list/tensor constructs nested inside generator expressions, tuples, conditional expressions, generic calls and arguments of overloaded calls) in every context (16: top level, if/else, loops, nested functions incl. under if/for and two levels deep, callee, struct method, struct methods first reached through a probe, unreachable code after a jump at the top level and inside nested blocks), checked and compiled with the gate closed / open / closed again through the context managers. Seeded exploration of histories (nesting <= 4, exceptions injected at drawn positions and caught at drawn levels, probe programs optionally carrying a second ordinary mistake, definitions created early or at first check, leaf ops optionally issued from another caller thread or a fresh contextvars context) over the real flag, context managers and all gate sites; after every op the flag equals the reference stack model and every probe program is accepted iff ungated or the model says the gate is open. Sampling, not proof.",
-    "note": "Trusted: the reference stack model (20 lines), the probe-program table (validated by bin/c33_table.py: all 560 gated kind x context pairs are rejected closed / accepted open, and all 7 fault kinds x 3 positions of each (reachable contexts) are rejected in both gate states, 17046 checks, on the repaired tree), the compat shim.",
+    "text": "Two parts. Exhaustive table: every gated construct (37, incl. list/tensor constructs nested inside generator expressions, tuples, conditional expressions, generic calls and arguments of overloaded calls) in every context (16: top level, if/else, loops, nested functions incl. under if/for and two levels deep, callee, struct method, struct methods first reached through a probe, unreachable code after a jump at the top level and inside nested blocks), checked and compiled with the gate closed / open / closed again through the context managers. Seeded exploration of histories (nesting <= 4, exceptions injected at drawn positions and caught at drawn levels, probe programs optionally carrying a second ordinary mistake, definitions created early or at first check, leaf ops optionally issued from another caller thread or a fresh contextvars context) over the real flag, context managers and all gate sites; after every op the flag equals the reference stack model and every probe program is accepted iff ungated or the model says the gate is open. Sampling, not proof.",
+    "note": "Trusted: the reference stack model (20 lines), the probe-program table (validated by bin/c33_table.py: all 592 gated kind x context pairs are rejected closed / accepted open, and all 7 fault kinds x 3 positions of each (reachable contexts) are rejected in both gate states, 18266 checks, on the repaired tree), the compat shim.",
     "design_ref": "DESIGN.md section 3 (C33)",
 }
 
